@@ -268,3 +268,56 @@ func (g *treeGen) msgs() []*Tree {
 	}
 	return out
 }
+
+// MsgSigned builds the tree as a message of a signed transaction: the top-level message's signer
+// field is the sender; nested messages carry plausible fields so that stateless validation passes.
+func (t *Tree) MsgSigned(sender string, k *Keys) sdk.Msg {
+	val0 := k.Pool[0].Val.String()
+	coin := sdk.NewInt64Coin("stake", 1_000_000)
+	if t.Wrap != "" {
+		anys := make([]*codectypes.Any, 0, len(t.Children))
+		for _, c := range t.Children {
+			a, err := codectypes.NewAnyWithValue(c.MsgSigned(sender, k))
+			if err != nil {
+				panic(err)
+			}
+			anys = append(anys, a)
+		}
+		switch t.Wrap {
+		case "WAuthzExec":
+			return &authz.MsgExec{Grantee: sender, Msgs: anys}
+		case "WGovSubmit":
+			return &govv1.MsgSubmitProposal{Messages: anys, Proposer: sender, Title: "t", Summary: "s", InitialDeposit: sdk.NewCoins(coin)}
+		case "WGroupSubmit":
+			return &group.MsgSubmitProposal{Messages: anys, Proposers: []string{sender}, GroupPolicyAddress: k.accAddr(user2ID).String(), Title: "t", Summary: "s"}
+		}
+		panic("unknown wrapper " + t.Wrap)
+	}
+	switch t.Leaf {
+	case "stk:SCreateValidator":
+		m, _ := stakingtypes.NewMsgCreateValidator(sdk.ValAddress(k.accAddr(user1ID)).String(), k.Pool[poolSize-1].ConsPriv.PubKey(), coin,
+			stakingtypes.NewDescription("x", "", "", "", ""), stakingtypes.NewCommissionRates(math.LegacyNewDecWithPrec(1, 1), math.LegacyNewDecWithPrec(5, 1), math.LegacyNewDecWithPrec(1, 1)), math.OneInt())
+		return m
+	case "stk:SDelegate":
+		return &stakingtypes.MsgDelegate{DelegatorAddress: sender, ValidatorAddress: val0, Amount: coin}
+	case "stk:SUndelegate":
+		return &stakingtypes.MsgUndelegate{DelegatorAddress: sender, ValidatorAddress: val0, Amount: coin}
+	case "stk:SBeginRedelegate":
+		return &stakingtypes.MsgBeginRedelegate{DelegatorAddress: sender, ValidatorSrcAddress: val0, ValidatorDstAddress: k.Pool[1].Val.String(), Amount: coin}
+	case "stk:SCancelUnbonding":
+		return &stakingtypes.MsgCancelUnbondingDelegation{DelegatorAddress: sender, ValidatorAddress: val0, Amount: coin, CreationHeight: 1}
+	case "stk:SUpdateParams":
+		return &stakingtypes.MsgUpdateParams{Authority: sender, Params: stakingtypes.DefaultParams()}
+	case "edit":
+		m := &stakingtypes.MsgEditValidator{ValidatorAddress: sdk.ValAddress(sdk.MustAccAddressFromBech32(sender)).String(),
+			Description: stakingtypes.NewDescription("edited", stakingtypes.DoNotModifyDesc, stakingtypes.DoNotModifyDesc, stakingtypes.DoNotModifyDesc, stakingtypes.DoNotModifyDesc)}
+		if t.Rate != nil {
+			d := decOf(t.Rate)
+			m.CommissionRate = &d
+		}
+		return m
+	case "withdraw":
+		return &distrtypes.MsgWithdrawDelegatorReward{DelegatorAddress: sender, ValidatorAddress: val0}
+	}
+	return &banktypes.MsgSend{FromAddress: sender, ToAddress: k.accAddr(user2ID).String(), Amount: sdk.NewCoins(sdk.NewInt64Coin("stake", 1))}
+}
